@@ -8,7 +8,8 @@ import DafRel.Lemmas.Exec
 
 namespace DafRel
 
-/-- Like `Rel.IterOK`, but a Transfer that holds a payload in the store may have any target. -/
+/-- Like `Rel.IterOK`, but a Transfer or Materialization that holds a payload in the store may have any target
+(`execute` returns the cached rows and never looks below such a node). -/
 def Rel.IterOKs (s : ExecState) : Rel → Prop
   | .leaf _ _ _ _ _ _ p _ => p = true
   | .unary op t _ => Rel.IterOKs s t ∧ op.isIdentity = false ∧ op.arityOk = true
@@ -17,7 +18,7 @@ def Rel.IterOKs (s : ExecState) : Rel → Prop
       (match op with
        | .chain => True
        | _ => False)
-  | .mat _ _ t => Rel.IterOKs s t
+  | .mat oid _ t => (s.payload oid).isSome = true ∨ Rel.IterOKs s t
   | .transfer oid _ t => (s.payload oid).isSome = true ∨ (Rel.IterOKs s t ∧ t.engine.kind = .iter)
   | .select _ _ _ _ _ _ _ _ t => Rel.IterOKs s t
 
@@ -43,7 +44,7 @@ theorem IterOKs.mono {s s' : ExecState} (hm : PayMono s s') : (r : Rel) → r.It
   | .leaf .., h => h
   | .unary _ t _, h => ⟨IterOKs.mono hm t h.1, h.2⟩
   | .binary _ l r _, h => ⟨IterOKs.mono hm l h.1, IterOKs.mono hm r h.2.1, h.2.2⟩
-  | .mat _ _ t, h => IterOKs.mono hm t h
+  | .mat oid _ t, h => h.elim (fun hp => Or.inl (hm oid hp)) (fun hr => Or.inr (IterOKs.mono hm t hr))
   | .transfer oid _ t, h => h.elim (fun hp => Or.inl (hm oid hp)) (fun hr => Or.inr ⟨IterOKs.mono hm t hr.1, hr.2⟩)
   | .select _ _ _ _ _ _ _ _ t, h => IterOKs.mono hm t h
 
@@ -51,14 +52,33 @@ theorem IterOKs.of_iterOK (s : ExecState) : (r : Rel) → r.IterOK → r.IterOKs
   | .leaf .., h => h
   | .unary _ t _, h => ⟨IterOKs.of_iterOK s t h.1, h.2⟩
   | .binary _ l r _, h => ⟨IterOKs.of_iterOK s l h.1, IterOKs.of_iterOK s r h.2.1, h.2.2⟩
-  | .mat _ _ t, h => IterOKs.of_iterOK s t h
+  | .mat _ _ t, h => Or.inr (IterOKs.of_iterOK s t h)
   | .transfer _ _ t, h => Or.inr ⟨IterOKs.of_iterOK s t h.1, h.2⟩
   | .select _ _ _ _ _ _ _ _ t, h => IterOKs.of_iterOK s t h
 
-/-- What `execute` delivers, plus: no payload is lost. -/
+/-- Payloads present in `s'` were present in `s` or sit on a Materialization of `r`. -/
+def PayNew (r : Rel) (s s' : ExecState) : Prop :=
+  ∀ o, (s'.payload o).isSome = true → (s.payload o).isSome = true ∨ o ∈ r.matOids
+
+theorem PayNew.refl (r : Rel) (s : ExecState) : PayNew r s s := fun _ h => Or.inl h
+theorem PayNew.of_payloads_eq (r : Rel) {s s' : ExecState} (h : s'.payloads = s.payloads) : PayNew r s s' := by
+  intro o ho; left; simpa [ExecState.payload, h] using ho
+theorem PayNew.trans {r1 r2 r : Rel} {a b c : ExecState} (h1 : PayNew r1 a b) (h2 : PayNew r2 b c)
+    (s1 : ∀ o, o ∈ r1.matOids → o ∈ r.matOids) (s2 : ∀ o, o ∈ r2.matOids → o ∈ r.matOids) : PayNew r a c := by
+  intro o ho
+  rcases h2 o ho with h | h
+  · rcases h1 o h with h | h
+    · exact Or.inl h
+    · exact Or.inr (s1 o h)
+  · exact Or.inr (s2 o h)
+theorem PayNew.sub {r1 r : Rel} {a b : ExecState} (h1 : PayNew r1 a b)
+    (s1 : ∀ o, o ∈ r1.matOids → o ∈ r.matOids) : PayNew r a b :=
+  fun o ho => (h1 o ho).imp id (s1 o)
+
+/-- What `execute` delivers, plus: no payload is lost, new ones sit on Materializations of the tree. -/
 def ExecGoodM (σ : Leaves) (reg : Nat → Option (List Row)) (r : Rel) (s : ExecState)
     (x : Except Err (Iterable × ExecState)) : Prop :=
-  ∃ it s', x = .ok (it, s') ∧ it.rows σ = .ok (sem σ r) ∧ ItOK it ∧ StoreOK σ reg s' ∧ PayMono s s'
+  ∃ it s', x = .ok (it, s') ∧ it.rows σ = .ok (sem σ r) ∧ ItOK it ∧ StoreOK σ reg s' ∧ PayMono s s' ∧ PayNew r s s'
 
 theorem exec_shortcutsM (σ : Leaves) (reg : Nat → Option (List Row)) (r : Rel) (self : Engine)
     (s : ExecState) (he : r.engine = self) (hwf : r.WF) (htr : r.Truthful σ)
@@ -77,17 +97,17 @@ theorem exec_shortcutsM (σ : Leaves) (reg : Nat → Option (List Row)) (r : Rel
   by_cases h0 : r.maxRows = some 0
   · have : (r.maxRows == some 0) = true := by simp [h0]
     rw [if_pos this]
-    exact ⟨_, _, rfl, by simp [Iterable.rows, maxRows_zero_sound σ r hwf htr h0], trivial, hs, PayMono.refl s⟩
+    exact ⟨_, _, rfl, by simp [Iterable.rows, maxRows_zero_sound σ r hwf htr h0], trivial, hs, PayMono.refl s, PayNew.refl r s⟩
   · have : ¬ ((r.maxRows == some 0) = true) := by simpa using h0
     rw [if_neg this]
     by_cases hj : r.isJoinIdentity = true
     · rw [if_pos hj]
-      exact ⟨_, _, rfl, by simp [Iterable.rows, joinIdentity_sound σ r hwf htr hj], trivial, hs, PayMono.refl s⟩
+      exact ⟨_, _, rfl, by simp [Iterable.rows, joinIdentity_sound σ r hwf htr hj], trivial, hs, PayMono.refl s, PayNew.refl r s⟩
     · rw [if_neg hj]
       cases hp : r.payloadIt s with
       | some p =>
         obtain ⟨h2, h3⟩ := payloadIt_correct σ reg r s hreg hs p hp
-        exact ⟨_, _, rfl, h2, h3, hs, PayMono.refl s⟩
+        exact ⟨_, _, rfl, h2, h3, hs, PayMono.refl s, PayNew.refl r s⟩
       | none => exact hnode hp
 
 /-- **Iteration engine correctness, with payload-holding Transfers from other engine families.** -/
@@ -110,7 +130,7 @@ theorem exec_correctM (σ : Leaves) (reg : Nat → Option (List Row)) :
     simp only [Rel.Truthful] at htr
     simp only [keyDetermined, Bool.and_eq_true] at hkd
     simp only [Rel.RegOK] at hreg
-    obtain ⟨it, s1, h1, h2, h3, h4, h5⟩ :=
+    obtain ⟨it, s1, h1, h2, h3, h4, h5, h6⟩ :=
       exec_correctM σ reg t self s hio.1 hwf.1 htr hkd.1 hreg hs (by simpa [Rel.engine] using he)
     have hm := metadata_truthful σ t hwf.1 htr
     obtain ⟨hc, hop⟩ := hwf.2
@@ -118,7 +138,8 @@ theorem exec_correctM (σ : Leaves) (reg : Nat → Option (List Row)) :
     obtain ⟨it', s', g1, g2, g3, g4⟩ := execOp_correct σ op t.columns it s1 (sem σ t) h2 h3 hm.keys hop
       hio.2.1 hio.2.2 (by
         cases op <;> first | rfl | exact hkd.2)
-    refine ⟨it', s', ?_, by simpa [sem] using g2, g3, h4.of_payloads_eq g4, h5.trans (PayMono.of_payloads_eq g4)⟩
+    refine ⟨it', s', ?_, by simpa [sem] using g2, g3, h4.of_payloads_eq g4, h5.trans (PayMono.of_payloads_eq g4),
+      PayNew.trans h6 (PayNew.of_payloads_eq t g4) (fun _ h => h) (fun _ h => h)⟩
     simp only [h1, g1]
   | .binary op l rr cols, self, s, hio, hwf, htr, hkd, hreg, hs, he => by
     rw [exec.eq_def]
@@ -135,29 +156,44 @@ theorem exec_correctM (σ : Leaves) (reg : Nat → Option (List Row)) :
       simp only [keyDetermined, Bool.and_eq_true] at hkd
       simp only [Rel.RegOK] at hreg
       have hel : l.engine = self := by simpa [Rel.engine] using he
-      obtain ⟨a, s1, h1, h2, _, h4, h5⟩ := exec_correctM σ reg l self s hl hwf.1 htr.1 hkd.1 hreg.1 hs hel
-      obtain ⟨b, s2, g1, g2, _, g4, g5⟩ :=
+      obtain ⟨a, s1, h1, h2, _, h4, h5, h6⟩ := exec_correctM σ reg l self s hl hwf.1 htr.1 hkd.1 hreg.1 hs hel
+      obtain ⟨b, s2, g1, g2, _, g4, g5, g6⟩ :=
         exec_correctM σ reg rr self s1 (IterOKs.mono h5 rr hr) hwf.2.1 htr.2 hkd.2 hreg.2 h4 (by rw [← heng, hel])
-      refine ⟨.chain a b, s2, ?_, ?_, trivial, g4, h5.trans g5⟩
+      refine ⟨.chain a b, s2, ?_, ?_, trivial, g4, h5.trans g5,
+        PayNew.trans h6 g6 (fun _ h => by simp [Rel.matOids, h]) (fun _ h => by simp [Rel.matOids, h])⟩
       · simp only [h1, g1]
       · simp only [Iterable.rows, h2, g2, sem]
   | .mat oid name t, self, s, hio, hwf, htr, hkd, hreg, hs, he => by
     rw [exec]
     refine exec_shortcutsM σ reg _ self s he hwf htr hreg hs _ ?_
-    intro _
+    intro hp
     simp only [Rel.IterOKs] at hio
     simp only [Rel.WF] at hwf
     simp only [Rel.Truthful] at htr
     simp only [keyDetermined] at hkd
     simp only [Rel.RegOK] at hreg
-    obtain ⟨it, s1, h1, h2, h3, h4, h5⟩ :=
+    have hio : Rel.IterOKs s t := by
+      rcases hio with hpay | hio
+      · simp only [Rel.payloadIt, Rel.oid] at hp
+        rw [hp] at hpay; cases hpay
+      · exact hio
+    obtain ⟨it, s1, h1, h2, h3, h4, h5, h6⟩ :=
       exec_correctM σ reg t self s hio hwf htr hkd hreg.2 hs (by simpa [Rel.engine] using he)
     obtain ⟨it', s2, g1, g2, g3, g4⟩ := materializedIt_correct σ it s1 (sem σ t) h2 h3
     refine ⟨it', { s2 with payloads := (oid, it') :: s2.payloads, evals := oid :: s2.evals }, ?_,
-      by simpa [sem] using g2, g3, ?_, ?_⟩
+      by simpa [sem] using g2, g3, ?_, ?_, ?_⟩
     · simp only [h1, g1]
     · exact StoreOK.of_payloads_eq ((h4.of_payloads_eq g4).cons oid it' (sem σ t) g3 hreg.1 g2) rfl
     · exact (h5.trans (PayMono.of_payloads_eq g4)).trans (PayMono.cons s2 oid it' _)
+    · intro o ho
+      by_cases hoo : o = oid
+      · right; simp [Rel.matOids, hoo]
+      · have : (s2.payload o).isSome = true := by
+          have hne : (oid == o) = false := by simpa using fun h => hoo h.symm
+          simpa [ExecState.payload, List.find?_cons, hne] using ho
+        rcases h6 o (by simpa [ExecState.payload, g4] using this) with h | h
+        · exact Or.inl h
+        · right; simp [Rel.matOids, h]
   | .transfer oid d t, self, s, hio, hwf, htr, hkd, hreg, hs, he => by
     rw [exec]
     refine exec_shortcutsM σ reg _ self s he hwf htr hreg hs _ ?_
@@ -170,8 +206,8 @@ theorem exec_correctM (σ : Leaves) (reg : Nat → Option (List Row)) :
       simp only [Rel.Truthful] at htr
       simp only [keyDetermined] at hkd
       simp only [Rel.RegOK] at hreg
-      obtain ⟨it, s1, h1, h2, h3, h4, h5⟩ := exec_correctM σ reg t t.engine s hio.1 hwf htr hkd hreg.2 hs rfl
-      refine ⟨it, s1, ?_, by simpa [sem] using h2, h3, h4, h5⟩
+      obtain ⟨it, s1, h1, h2, h3, h4, h5, h6⟩ := exec_correctM σ reg t t.engine s hio.1 hwf htr hkd hreg.2 hs rfl
+      refine ⟨it, s1, ?_, by simpa [sem] using h2, h3, h4, h5, h6⟩
       simp only [hio.2, h1]
   | .select oid so pr dd s1 s2 sk ic t, self, s, hio, hwf, htr, hkd, hreg, hs, he => by
     rw [exec.eq_def]
@@ -182,8 +218,8 @@ theorem exec_correctM (σ : Leaves) (reg : Nat → Option (List Row)) :
     simp only [Rel.Truthful] at htr
     simp only [keyDetermined] at hkd
     simp only [Rel.RegOK] at hreg
-    obtain ⟨it, s1', h1, h2, h3, h4, h5⟩ :=
+    obtain ⟨it, s1', h1, h2, h3, h4, h5, h6⟩ :=
       exec_correctM σ reg t self s hio hwf htr hkd hreg.2 hs (by simpa [Rel.engine] using he)
-    exact ⟨it, s1', by simp only [h1], by simpa [sem] using h2, h3, h4, h5⟩
+    exact ⟨it, s1', by simp only [h1], by simpa [sem] using h2, h3, h4, h5, h6⟩
 
 end DafRel
